@@ -35,6 +35,7 @@ import world
 
 THEOREMS = [
     "C14_derives_everywhere",
+    "C14_derives_are_full_paths",
     "C14_patch_derives",
     "C14_patch_derives_survive_default",
     "C14_patch_apply",
@@ -162,6 +163,36 @@ def case_of(doc, settings=None, extra_steps=None):
 # Ord ...: a dropped per-type `PartialEq` would be invisible on them).  Not compilable: scan-only stream.
 MARK = "::c14_marker::Marker"
 MARK2 = "::c14_marker::Global"
+# derives whose LAST path segment equals a derive typify adds by itself, under a foreign path: different macros
+# (`::rkyv::Serialize`, `::stable_hash::Hash` ...).  Derive strings are identified only when equal as strings.
+BUILTIN_SEGMENTS = ["Serialize", "Deserialize", "Clone", "Debug", "Copy", "PartialEq", "Eq", "PartialOrd", "Ord", "Hash",
+                    "Default"]
+
+
+def last_segment(d):
+    return squash(d).split("::")[-1]
+
+
+def colliding_markers(gen=None, prefix="::c14_other::"):
+    segs = list(BUILTIN_SEGMENTS)
+    if gen is not None:
+        for it in root_items(gen["render"]["scan"]):
+            for d in it["derives"]:
+                if last_segment(d) not in segs:
+                    segs.append(last_segment(d))       # whatever typify derives by itself on this tree
+    return [prefix + x for x in segs]
+
+
+def emulate_dedup_by_last_segment(derives, requested):
+    """what `strings_to_derives` would emit if derives were keyed on their last path segment (built-ins first)"""
+    builtin = [d for d in derives if d not in requested]
+    seen = {last_segment(d) for d in builtin}
+    out = list(builtin)
+    for d in derives:
+        if d in requested and last_segment(d) not in seen:
+            seen.add(last_segment(d))
+            out.append(d)
+    return out
 
 
 def gen_ok(g):
@@ -873,6 +904,11 @@ def check_syntactic(doc, st, meta, g, base, viol, counts):
             else:
                 counts["patch_target_not_generated"] += 1
             continue
+        if MUT == "derive-dedup-by-last-segment":
+            it = dict(it, derives=emulate_dedup_by_last_segment(it["derives"], set(p.get("derives", [])) | set(meta["derives"])))
+        for d in p.get("derives", []):
+            if last_segment(d) in BUILTIN_SEGMENTS and "::c14_" in d:
+                counts["colliding_patch_derives_checked"] += 1
         miss = [d for d in p.get("derives", []) if d not in it["derives"]]
         if miss:
             bad("patch-derives-missing", key=key, item=new, missing=miss, derives=it["derives"])
@@ -896,6 +932,11 @@ def check_syntactic(doc, st, meta, g, base, viol, counts):
         ds = it["derives"]
         if MUT == "global-derive-skips-newtypes" and it["kind"] == "struct" and it["fields"]["k"] == "tuple":
             ds = [d for d in ds if d not in meta["derives"]]
+        if MUT == "derive-dedup-by-last-segment":
+            ds = emulate_dedup_by_last_segment(ds, set(meta["derives"]) | {d for p in meta["patch"].values()
+                                                                          for d in p.get("derives", [])})
+        counts["colliding_global_derives_checked"] += len([d for d in meta["derives"]
+                                                           if last_segment(d) in BUILTIN_SEGMENTS and "::c14_" in d])
         miss = [d for d in meta["derives"] if d not in ds]
         if miss:
             bad("global-derive-missing", item=it["name"], missing=miss, derives=it["derives"])
@@ -1510,13 +1551,17 @@ def run(ctx):
         names = Dump(g["dump"]).named()
         if names:
             pm = {}
+            coll = colliding_markers(g)
             for nm in sorted(names):
-                pm[nm] = {"rename": None, "derives": [MARK]}
+                pm[nm] = {"rename": None, "derives": [MARK] + rnd.sample(coll, 3)}
                 if rnd.random() < 0.3 and nm + "Mk" not in names:
                     pm[nm]["rename"] = nm + "Mk"
             st = {"patch": {k: {kk: vv for kk, vv in v.items() if vv} for k, v in pm.items()}}
-            if rnd.random() < 0.5:
-                st["derives"] = [MARK2]
+            x = rnd.random()
+            if x < 0.4:
+                st["derives"] = [MARK2] + rnd.sample(colliding_markers(g, "::c14_global::"), 4)
+            elif x < 0.7:
+                st["derives"] = colliding_markers(g, "::c14_global::")
             so.append((di, st, {"replace": {}, "convert": [], "patch": pm, "derives": st.get("derives", []),
                                 "map_type": MAP_TYPES[0]}, None))
         # scan-only: position-complete annotations for a conversion schema taken from the document and for one of
@@ -1791,6 +1836,10 @@ def run(ctx):
         if not quick or True:
             try:
                 res, ok, detail, iok, idetail, n_inst_thm = coq_wire_equiv("c14we_" + ctx.tier, jobs, True)
+                if "inconsistent assumptions" in (detail + idetail):
+                    # another check regenerated a Gen/*.v table between our build and this evaluation: rebuild, retry
+                    vlib.coq_make(["theories/Props/C14.vo"])
+                    res, ok, detail, iok, idetail, n_inst_thm = coq_wire_equiv("c14we_" + ctx.tier, jobs, True)
                 ctx.oblige("wire_equiv evaluates on the real dumps (%d document x settings pairs)" % len(jobs), ok, detail)
                 n_true = 0
                 for j, (i, un) in enumerate(jidx):
@@ -1815,11 +1864,21 @@ def run(ctx):
             pick = [i for i in sig_ok if gen_ok(w.gen[i])]
             pick = pick[: (24 if quick else 200)]
             k4 = [(cases[i]["settings"], w.gen[i]) for i in pick] + so_gens[: (16 if quick else 120)]
-            mv = coq_model_views("c14mv_" + ctx.tier, [g for _, g in k4])
+            try:
+                mv = coq_model_views("c14mv_" + ctx.tier, [g for _, g in k4])
+            except RuntimeError as e:
+                if "inconsistent assumptions" not in str(e):
+                    raise
+                vlib.coq_make(["theories/Props/C14.vo"])
+                mv = coq_model_views("c14mv_" + ctx.tier, [g for _, g in k4])
             mism = []
             n_items = 0
             for (k4st, k4g), m in zip(k4, mv):
                 sv = scan_settings_view(k4g)
+                if MUT == "derive-dedup-by-last-segment":
+                    for x in sv:
+                        x["derives"] = sorted(emulate_dedup_by_last_segment(
+                            x["derives"], {d for d in x["derives"] if "::c14_" in d}))
                 if MUT == "patch-derives-dropped-with-default":
                     for x in sv:
                         e = [y for y in k4g["dump"]["entries"].values() if y.get("name") == x["name"]]
